@@ -733,6 +733,12 @@ def copyto(dst, src, *args, **kwargs):
     # note that np.copyto is heavily used internally
     # in numpy, and it may be used with fundamental datatypes,
     # so we don't attempt to pass ndarray views to keep generality
+    where = args[1] if len(args) > 1 else kwargs.get("where", True)
+    if where is not True and hasattr(dst, "units") and hasattr(src, "units"):
+        # only part of dst is overwritten: it keeps its units and receives
+        # the source values expressed in them
+        np.copyto._implementation(dst, src.to(dst.units), *args, **kwargs)
+        return
     np.copyto._implementation(dst, src, *args, **kwargs)
     if getattr(dst, "units", None) is not None:
         dst.units = getattr(src, "units", dst.units)
